@@ -29,8 +29,8 @@ type c08Plan struct {
 	Table       []tableNodeSpec
 	AskerInTab  bool
 	Policy      simnet.Policy
-	Direct      bool // observe the raw reply through the handler wrapper instead of end to end
-	SecondAsker bool // a second asker fetches the same key concurrently
+	Direct      bool   // observe the raw reply through the handler wrapper instead of end to end
+	SecondAsker bool   // a second asker fetches the same key concurrently
 	Prior       []byte // non-empty: the asker ran with this version set before (same identity and endpoint), contacted the responder, and restarted
 }
 
